@@ -858,6 +858,12 @@ rv = .false.
                             fmt,
                         )
                     arg_f_names.append(name)
+                    if param.is_array() > 1:
+                        # 'int **': same as build_arg_list_interface,
+                        # too many pointers are a type(C_PTR).
+                        arg_c_decl.append("type(C_PTR) :: {}".format(name))
+                        self.set_f_module(modules, "iso_c_binding", "C_PTR")
+                        continue
                     arg_c_decl.append(param.bind_c(name=name))
 
                     arg_typemap, specialize = statements.lookup_c_statements(
@@ -874,8 +880,9 @@ rv = .false.
                     # which it is passed to.
                     res_typemap = arg.typemap
                     res_type = res_typemap.f_c_type or res_typemap.f_type
-                    if res_type is None or res_typemap.name == "void":
-                        # void * and other opaque results
+                    if res_type is None or res_typemap.name == "void" \
+                       or arg.is_indirect():
+                        # void *, 'double *' and other opaque results
                         res_type = "type(C_PTR)"
                         self.set_f_module(modules, "iso_c_binding", "C_PTR")
                     else:
